@@ -212,6 +212,17 @@ theorem isPartOfLoop_iff {α : Type} [DecidableEq α] (self : List α) :
         · intro h; cases h
         · rintro ⟨h, _⟩; exact absurd h.symm hne
 
+theorem isPartOf_iff {α : Type} [DecidableEq α] (a b : List α) : isPartOf a b = true ↔ a <+: b := by
+  unfold isPartOf
+  by_cases h : a.length > b.length
+  · simp only [h, if_true, Bool.false_eq_true, false_iff]
+    intro hp
+    have := hp.length_le
+    omega
+  · simp only [h, if_false]
+    have := isPartOfLoop_iff a b 0 (Nat.zero_le _) (by omega)
+    simpa using this
+
 end Links
 
 namespace Links
